@@ -317,6 +317,9 @@ def all_obligations():
              what='encode(): a run of >= 4 still pending when the block is closed gets its count byte (length - 4) appended and marked in use; nothing else changes; the block stays within capacity',
              functions=['encode (final-flush section)'], flags=['--unwind', '260', '--unwinding-assertions'], expect=['final flush: the block never exceeds'],
              assumed=XS[:1] + ['saved-state facts established by the collect() instances: 0 <= rle_state < 259; rle_state >= 4 implies nblock < capacity'], replayable=True))
+    A(Ob(name='encode.group_count', props=['C02', 'C08'], kind='bounded', harness='h_encode_sections.c', entry='h_group_count', bound='blocks of 2..70 symbols (stand-in array); alphabet size symbolic',
+         what='generate_prefix_code(): one selector per started group of 50 symbols, 1..6 tables tried, the last group completed with the dummy symbol and nothing written beyond it',
+         functions=['generate_prefix_code (group-count section)'], flags=['--unwind', '125', '--unwinding-assertions'], expect=['groups: one selector per started group', 'groups: the last group is completed'], assumed=XS, replayable=True))
     A(Ob(name='encode.first_length', props=['C02'], kind='lemma', harness='h_encode_sections.c', entry='h_first_length',
          what='transmit(): for every first code length 1..20 and padding 0..3 the 5-bit start value of the first table stays within 1..20 and lies exactly tree_pad steps from the real length',
          functions=['transmit (first-length section)'], flags=['--unwind', '8', '--unwinding-assertions'], expect=['first table: the 5-bit start value stays within'], assumed=XS, replayable=True))
